@@ -149,7 +149,7 @@ def tour(g: Dict[str, Any], rng: random.Random, episode_len: int = 60, budget: O
 # ---------------------------------------------------------------------------------------------------------------
 # binding to a real environment
 # ---------------------------------------------------------------------------------------------------------------
-TARGET = {"svc": ("b", "dns-server"), "app": ("a", "web-browser"), "fs": ("b", "tourf")}
+TARGET = {"ssh": ("a", "terminal"), "svc": ("b", "dns-server"), "app": ("a", "web-browser"), "fs": ("b", "tourf")}
 
 
 def scenario(facet: str, pow_dur: int = 2, flatten: bool = False, masking: bool = False) -> Tuple[Dict[str, Any], Dict[str, int]]:
@@ -179,7 +179,12 @@ def scenario(facet: str, pow_dur: int = 2, flatten: bool = False, masking: bool 
 
     for a in ("node-shutdown", "node-startup", "node-reset"):
         add(a, opt["node"])
-    if facet == "svc":
+    if facet == "ssh":
+        add("node-session-remote-login", {"node_name": "a", "username": "admin", "password": "admin", "remote_ip": "192.168.2.2"})
+        add("node-send-remote-command", {"node_name": "a", "remote_ip": "192.168.2.2", "command": ["file_system", "create", "folder", "tour"]})
+        add("node-session-remote-logoff", {"node_name": "a", "remote_ip": "192.168.2.2", "verb": "remote_logoff"})
+        add("node-account-change-password", {"node_name": "b", "username": "admin", "current_password": "admin", "new_password": "admin"})
+    elif facet == "svc":
         for v in ("stop", "start", "pause", "resume", "restart", "disable", "enable", "fix", "scan"):
             add(f"node-service-{v}", opt["svc"])
     elif facet == "app":
